@@ -136,6 +136,19 @@ PROPS = {
                  "the multiprocessing manager's dict proxy (a plain dict stands in)"],
         assumptions=["a file's modification time strictly increases whenever its content changes and is >= 1"],
     ),
+    "C09": dict(
+        modules=["harness.c09"],
+        level="other",
+        explanation="Bounded symbolic execution of every state-changing handler through the real process_request over "
+                    "a recording store that remembers the state at each commit (= what a crash or the end of the "
+                    "request's session leaves). Oracle per path: success => final state equals the committed state, "
+                    "at most one state-changing commit, nothing pending; failure => nothing committed, nothing "
+                    "pending, state unchanged; created objects are whole in the committed state.",
+        stubs=["TxSession (recording FakeSession)", "RecordingCrypto", "NullLogger", "engine.time pinned"],
+        outside=["process death, SQLite journal/fsync behaviour, start-up create_all (all trusted or not encodable)",
+                 "stored lists longer than 2, text longer than 1 character"],
+        assumptions=["a SQLite/SQLAlchemy commit is atomic and durable", "closing a session discards uncommitted changes"],
+    ),
     "C15": dict(
         modules=["harness.c15"],
         level="other",
@@ -193,6 +206,14 @@ PROPS = {
 }
 
 CLAIMS = {
+    "C09": dict(
+        text="PARTIAL: crash points, journals and fsync are outside any encoding; what is decided is the reduction "
+             "'every state-changing operation does all its store mutations in one transaction that ends with its "
+             "commit and acknowledges only after it; a failing operation commits nothing' - on every path of the real "
+             "handlers within the bounds - plus a read-out that the session factory the engine builds is transactional. "
+             "Together with the (trusted) atomicity and durability of a SQLite commit this gives the property.",
+        note="SQLite/SQLAlchemy commit semantics trusted, not checked; recording stub store (TxSession).",
+    ),
     "C18": dict(
         text="After every scan of every history within the bounds (3 symbolic events over 2 files and 7 contents; 2-3 "
              "further symbolic events behind shadowing prefixes over 2-3 files) the policy store equals the reference "
